@@ -11,6 +11,9 @@ choice `sync.Pool` makes) exactly what it returns alone.  The proof combines
   * ownership exclusivity (a step of another goroutine does not touch what this goroutine owns),
 and `writeset_expected` ties the "touched only through atomic operations" premise to the Go source:
 the regenerated list of all assignments to shared objects contains only the synchronised ones.
+The abstract theorems take the laws of the runner / buffer / parse operations as a record (`Laws`);
+section `runnerInstance` instantiates them with the C12 models (`runnerSem`) and a *proved* value of the
+record (`runnerLaws`): `runner_interleaving_eq_sequential`, `runner_step_independent_of_shared_state`.
 
 What is NOT proved (explored by legs S and R instead): that the Go implementation realises this
 semantics at the level of the Go memory model -- that `sync.Pool`, `sync.Mutex` and the atomics give
@@ -19,6 +22,7 @@ slice or map, and the behaviour of the timeout clock goroutine.  Those are check
 the race detector and by comparing concurrent results with precomputed sequential ones.
 -/
 import RegexVerif.Lemmas.Interleave
+import RegexVerif.Lemmas.RunnerSem
 import RegexVerif.Generated.Fields
 
 namespace RegexVerif.Props.C11
@@ -93,9 +97,9 @@ open RegexVerif.RunnerReuse
     `Own := RunInv re`, `startR := scanInit ∘ (program selection)`, `putR := put`, `obs := observe`: a new
     runner satisfies the pool invariant, the pool invariant implies the ownership facts, starting a scan on
     any pooled runner gives the observable state a new runner gives, starting keeps the ownership facts,
-    and `put` re-establishes the pool invariant.  (The remaining laws -- the interpreter and `finish` read
-    only `observe`, decode overwrites -- are `call_history_independent`'s premise and
-    `pool_decode_history_independent` of C12.) -/
+    and `put` re-establishes the pool invariant.  (The complete record, including "the interpreter and
+    `finish` read only `observe`" and "decode overwrites", is `Lemmas.RunnerSem.runnerLaws`; see section
+    `runnerInstance` below.) -/
 theorem runner_laws_from_C12 (re : Re) (a : ScanArgs) (quick : Bool) :
     PoolInv re Runner.fresh ∧
     (∀ r, PoolInv re r → RunInv re r) ∧
@@ -146,9 +150,9 @@ def toyLaws : Laws toy where
   inv_own := fun _ _ => trivial
   start_obs := fun _ _ _ _ => rfl
   start_own := fun _ _ _ _ => trivial
-  step_obs := fun _ _ _ => rfl
+  step_obs := fun _ _ _ _ => rfl
   step_own := fun _ _ _ _ => trivial
-  finish_obs := fun _ _ _ => rfl
+  finish_obs := fun _ _ _ _ => rfl
   put_inv := fun _ _ => rfl
   decode_vis := by
     intro a b _
@@ -187,6 +191,186 @@ example :
   decide
 
 end toy
+
+/-! ### ===== the laws are theorems for the C12 models: `runnerSem`, `runnerLaws` =====
+
+`Model/RunnerSem.lean` instantiates the abstract semantics with the C12 models (`RunnerReuse` runner with
+`scanInit` / `put` / `observe`, the Match builder on its real arrays, `ensureStorage` on the real
+backtracking stack; `Pool` buffers and `decode`; the `LRU` cache), `Lemmas/RunnerSem.lean` proves every
+field of `Laws` for it (`runnerLaws`).  The theorems below are the two abstract theorems at that
+instance: no `Laws` hypothesis is left. -/
+section runnerInstance
+open RegexVerif.RunnerReuse RegexVerif.RunnerSem RegexVerif.Lemmas.RunnerSem RegexVerif.Lemmas.RunnerReuse
+
+/-- invariant of the shared state, written out for the C12 models: every pooled runner satisfies
+    `PoolInv` (what `putRunner` establishes) and the ownership facts `OwnR` (`RunInv`, every slot of its result
+    object well formed, backtracking stack within its limit); the cache has no duplicate keys, respects its
+    bound and holds parses of its keys.  Pooled buffers are unconstrained. -/
+def RunnerSharedInv (re : Re) (parse : κ → Option ν) (S : Shared RunSt Pool.Buf κ ν) : Prop :=
+  (∀ s ∈ S.runners, PoolInv re s.r ∧ OwnR re s.r) ∧ Props.C12.CacheInv S.cache ∧
+  (∀ k v, LRU.lookup k S.cache.entries = some v → parse k = some v)
+
+/-- invariant of a goroutine's local state, written out -/
+def RunnerLocalGood (re : Re) (parse : κ → Option ν) (c : Call CallArgs κ)
+    (L : Local RunSt Pool.Buf (RunnerSem.Res ν) ν) : Prop :=
+  (∀ s, L.runner = some s → OwnR re s.r ∧ (L.started = false → PoolInv re s.r ∧ OwnR re s.r)) ∧
+  (∀ k v, c.repl = some k → L.data = some v → parse k = some v)
+
+/-- **The interpreter of the C12 models reads only the observable state.**  Two runners of this Regexp
+    (`OwnR`) with the same `observe` -- they may differ in stack capacities, dead stack cells, array cells at
+    or above `2*matchcount`, the scratch fields -- and the same error flag: after one interpreter step
+    (any control function, any text) they again have the same `observe` and error flag, the step keeps
+    `OwnR`, and the results built from them are equal.  (`step_obs`, `step_own`, `finish_obs` of `Laws`.) -/
+theorem runner_step_reads_only_observable (re : Re) (a : CallArgs) (t : List Int) (s s' : RunSt)
+    (h : OwnR re s.r) (h' : OwnR re s'.r) (ho : observe s.r = observe s'.r) (he : s.err = s'.err) :
+    observe (stepSt re a t s).r = observe (stepSt re a t s').r ∧ (stepSt re a t s).err = (stepSt re a t s').err ∧
+    OwnR re (stepSt re a t s).r ∧ ∀ d : Option ν, finishSt d s = finishSt d s' := by
+  have h1 := (stepSt_obs re a t s h).1
+  have h2 := (stepSt_obs re a t s' h').1
+  rw [ho, he, ← h2] at h1
+  simp only [Prod.mk.injEq] at h1
+  refine ⟨h1.1, h1.2, (stepSt_obs re a t s h).2, ?_⟩
+  intro d
+  rw [finishSt_obs, finishSt_obs, ho, he]
+
+/-- why `OwnR` (well-formed slots) is needed -- and why `Laws.step_obs` carries the premise `Own r`: two
+    slots with the same view `(1, [0, -5])`; the negative cell is not a reference that points below itself,
+    so `matchLength` follows it to cell 2, which lies above `2*matchcount`, and returns the stale 7 resp. 99.
+    Such slots violate `Slot.WF` and are not reachable (`builder_never_reads_stale`, `transfer_interval_nonneg`). -/
+example :
+    viewS { count := 1, arr := [0, -5, 7, 8] } = viewS { count := 1, arr := [0, -5, 99, 8] } ∧
+    Slot.matchLengthWith rdAny { count := 1, arr := [0, -5, 7, 8] } = some 7 ∧
+    Slot.matchLengthWith rdAny { count := 1, arr := [0, -5, 99, 8] } = some 99 := by decide
+
+/-- **A step of a call on the C12 models does not depend on the shared state it finds** --
+    `step_independent_of_shared_state` at `runnerSem` / `runnerLaws`. -/
+theorem runner_step_independent_of_shared_state (re : Re) (sizes : List Nat) (parse : κ → Option ν)
+    (c : Call CallArgs κ) (ch : Nat) (S : Shared RunSt Pool.Buf κ ν) (L : Local RunSt Pool.Buf (RunnerSem.Res ν) ν)
+    (hS : RunnerSharedInv re parse S) (hL : RunnerLocalGood re parse c L) :
+    α (runnerSem re sizes parse) (stepG (runnerSem re sizes parse) c ch S L).2 =
+      absStep (runnerSem re sizes parse) (runnerLaws re sizes parse) c (α (runnerSem re sizes parse) L) ∧
+    RunnerSharedInv re parse (stepG (runnerSem re sizes parse) c ch S L).1 ∧
+    RunnerLocalGood re parse c (stepG (runnerSem re sizes parse) c ch S L).2 :=
+  step_independent_of_shared_state (runnerSem re sizes parse) (runnerLaws re sizes parse) c ch S L hS hL
+
+/-- the same, without the abstract step: two shared states (any pooled runners, buffers, cache contents
+    satisfying the invariant) and two picks of `sync.Pool` lead to the same relevant local state -/
+theorem runner_step_same_for_all_shared_states (re : Re) (sizes : List Nat) (parse : κ → Option ν)
+    (c : Call CallArgs κ) (ch ch' : Nat) (S S' : Shared RunSt Pool.Buf κ ν) (L : Local RunSt Pool.Buf (RunnerSem.Res ν) ν)
+    (hS : RunnerSharedInv re parse S) (hS' : RunnerSharedInv re parse S') (hL : RunnerLocalGood re parse c L) :
+    α (runnerSem re sizes parse) (stepG (runnerSem re sizes parse) c ch S L).2 =
+    α (runnerSem re sizes parse) (stepG (runnerSem re sizes parse) c ch' S' L).2 := by
+  rw [(runner_step_independent_of_shared_state re sizes parse c ch S L hS hL).1,
+      (runner_step_independent_of_shared_state re sizes parse c ch' S' L hS' hL).1]
+
+/-- **Every interleaving of calls on the C12 models equals the sequential execution** --
+    `interleaving_eq_sequential` at `runnerSem` / `runnerLaws`: any number of goroutines, any prior shared
+    state satisfying `RunnerSharedInv`, any schedule and any picks of `sync.Pool`; a finished call's result
+    (error flag, groups after `tidy`, text position, parsed replacement) is the one it has alone on empty
+    pools and an empty cache. -/
+theorem runner_interleaving_eq_sequential (re : Re) (sizes : List Nat) (parse : κ → Option ν)
+    (calls : Nat → Call CallArgs κ) (S0 : Shared RunSt Pool.Buf κ ν) (hS0 : RunnerSharedInv re parse S0)
+    (sch : Schedule) (g : Nat) (maxSize : Nat)
+    (hfin : ((exec (runnerSem re sizes parse) calls sch (initState calls S0)).locals g).todo = []) :
+    ((exec (runnerSem re sizes parse) calls sch (initState calls S0)).locals g).res =
+      alone (runnerSem re sizes parse) (calls g) maxSize :=
+  interleaving_eq_sequential (runnerSem re sizes parse) (runnerLaws re sizes parse) calls S0 hS0 sch g maxSize hfin
+
+/-! non-vacuity: Regexp `exRe` of C12 (2 capture slots, 3 backtracking instructions, stack limit 1000, a
+    bool-only program), pool classes 4 and 16, `parse k = k + 100`.  The shared state holds the runner C12's
+    example left behind (`put exUsed`: stacks grown to 80/40 cells and partly full, a result object with
+    counts, stale balancing references `-3 -4` above them, `balancing` set; error flag set), a stale class-4
+    buffer full of 7s and a full cache.  Goroutine 0 runs a `Replace`-like call on "hi!" (gets the pooled
+    runner and the stale buffer), goroutine 1 a bool-only call on a 2-rune / 5-byte input. -/
+
+/-- the calls' program: position, two captures and a balancing reference on slot 1, the three reads of
+    slot 1 (the next position depends on what they return), a capture on slot 0, then `goTo(0)` -/
+def exCtl (t : List Int) (o : Obs) : Prim :=
+  let n := match o.matchView with
+    | some mv => (mv.1.map (·.1)).foldl (· + ·) 0
+    | none => 0
+  if o.runtextpos = 0 then .act (.setpos 1)
+  else match n with
+    | 0 => .act (.capture 1 0 t.length)
+    | 1 => .act (.capture 1 1 2)
+    | 2 => .act (.balance 1)
+    | 3 => if o.runtextpos = 1 then
+             .read 1 (fun m i l => match m, i, l with
+               | some true, some i, some l => .setpos (2 + i + l)
+               | _, _, _ => .setpos (-1))
+           else .act (.capture 0 0 o.runtextpos.toNat)
+    | _ => .act (.enter 7 false false)
+
+def exCallArgs (quick : Bool) (rt : Nat) (runes : List Int) (needed : Nat) (h : runes.length ≤ needed) : CallArgs :=
+  { quick := quick, rt := rt, textInfo := some rt, textstart := 0, timeout := 5, noTimeout := false,
+    newDeadline := 999, runes := runes, needed := needed, hn := h, maxPool := -1, ctl := exCtl }
+
+def exCalls : Nat → Call CallArgs Nat
+  | 0 => { args := exCallArgs false 8 [104, 105, 33] 3 (by decide), repl := some 7, nsteps := 7 }
+  | _ => { args := exCallArgs true 9 [233, 26085] 5 (by decide), repl := none, nsteps := 4 }
+
+def exSem : Sem RunSt Pool.Buf (Obs × Bool) CallArgs (RunnerSem.Res Nat) Nat Nat :=
+  runnerSem Props.C12.exRe [4, 16] (fun k => some (k + 100))
+
+def exS0 : Shared RunSt Pool.Buf Nat Nat :=
+  { runners := [{ r := put Props.C12.exUsed, err := true }],
+    bufs := [{ data := [7, 7, 7, 7], len := 0 }],
+    cache := { entries := [(7, 107)], maxSize := 1 } }
+
+/-- (goroutine, `sync.Pool` pick): goroutine 0 is handed the pooled runner and the stale buffer;
+    goroutine 1 finds the pools empty at its `get`s -/
+def exSchedule : Schedule :=
+  [(0, 0), (1, 0), (0, 0), (1, 0), (0, 0), (0, 0), (1, 0), (0, 0), (1, 0), (0, 0), (1, 0), (0, 0), (1, 0), (0, 0),
+   (1, 0), (0, 0), (1, 0), (0, 0), (1, 0), (0, 0), (0, 0), (0, 0), (0, 0)]
+
+theorem exUsed_own : OwnR Props.C12.exRe Props.C12.exUsed := by
+  refine ⟨⟨fun _ => by decide, ?_⟩, ?_, ⟨by decide, by intro _; decide⟩⟩
+  · intro m h; simp [Props.C12.exUsed, Runner.fresh] at h; subst h; rfl
+  · intro m h
+    simp only [Props.C12.exUsed, Runner.fresh, Option.some.injEq] at h
+    subst h
+    intro s hs
+    simp only [List.mem_cons, List.mem_nil_iff, or_false] at hs
+    rcases hs with rfl | rfl <;> exact wf_of_check _ (by decide) (by decide) (by decide)
+
+/-- the shared state of the example satisfies the invariant -/
+theorem exS0_inv : RunnerSharedInv Props.C12.exRe (fun k => some (k + 100)) exS0 := by
+  refine ⟨?_, ⟨by simp [exS0, LRU.keys], by intro _; simp [exS0]⟩, ?_⟩
+  · intro s hs
+    simp only [exS0, List.mem_cons, List.mem_nil_iff, or_false] at hs
+    subst hs
+    exact ⟨(Props.C12.put_resets_code _ _ exUsed_own.1).1, ownR_put _ _ exUsed_own⟩
+  · intro k v h
+    simp only [exS0, LRU.lookup] at h
+    split at h <;> simp_all <;> omega
+
+set_option maxRecDepth 100000 in
+/-- both goroutines finish; each gets what it gets alone (evaluated on both sides); the results are the
+    expected ones (no error; groups `(0,5)` and -- after compaction of the balancing reference -- `(0,3)`
+    resp. the raw bool-only state); the pooled runner really was used and went back (stack of 80 cells) -/
+example :
+    let σ := exec exSem exCalls exSchedule (initState exCalls exS0)
+    ((σ.locals 0).todo, (σ.locals 1).todo) = ([], []) ∧
+    ((σ.locals 0).res, (σ.locals 1).res) = (alone exSem (exCalls 0) 16, alone exSem (exCalls 1) 16) ∧
+    alone exSem (exCalls 0) 16 = some ⟨false, some [(1, [0, 5]), (1, [0, 3])], 5, some 107⟩ ∧
+    alone exSem (exCalls 1) 16 = some ⟨false, some [(0, []), (1, [0, 2])], 1, none⟩ ∧
+    σ.shared.runners.map (fun s => s.r.runtrack.length) = [64, 80] := by
+  decide
+
+/-- the hypotheses of `runner_step_reads_only_observable` are satisfiable by two different runners: the
+    recycled one and a new one after `scanInit` have the same `observe`, both satisfy `OwnR`, and they differ
+    (stack capacity 80 vs 64) -/
+example :
+    OwnR Props.C12.exRe (scanInit Props.C12.exRe Props.C12.exArgs (put Props.C12.exUsed)) ∧
+    OwnR Props.C12.exRe (scanInit Props.C12.exRe Props.C12.exArgs Runner.fresh) ∧
+    observe (scanInit Props.C12.exRe Props.C12.exArgs (put Props.C12.exUsed)) =
+      observe (scanInit Props.C12.exRe Props.C12.exArgs Runner.fresh) ∧
+    (scanInit Props.C12.exRe Props.C12.exArgs (put Props.C12.exUsed)).runtrack.length ≠
+      (scanInit Props.C12.exRe Props.C12.exArgs Runner.fresh).runtrack.length :=
+  ⟨ownR_scanInit _ _ _ (ownR_put _ _ exUsed_own), ownR_scanInit _ _ _ (ownR_fresh _),
+   (Props.C12.scanInit_resets _ _ false _ (Props.C12.put_resets_code _ _ exUsed_own.1).1).1, by decide⟩
+
+end runnerInstance
 
 /-! ### the premise "shared state is touched only through synchronised operations", against the source -/
 section writeset
@@ -277,6 +461,47 @@ theorem writeset_synchronised :
     expectedSharedWrites.all (fun e =>
       if e.2.2.1 then e.2.2.2 != .compileTime && e.2.2.2 != .testOnly
       else e.2.2.2 == .compileTime || e.2.2.2 == .testOnly || e.2.2.2 == .mutex) = true := by decide
+
+/-- what the *regenerated* synchronisation evidence (`Generated.sharedWriteSync`: kind, mutex) has to be for
+    an annotation: a `mutex` write lies lexically inside `Lock()`…`Unlock()` of one of the three mutexes in
+    every occurrence (or in a plain function all of whose call sites do: `extendClock`); `poolOwned` and
+    `callLocal` writes are stores through a pointer.  The other annotations do not claim a synchronisation
+    primitive (`compileTime`/`testOnly`: unreachable at match time; `parseLocal`/`lazyInit`: see `Sync`). -/
+def Sync.evidenceOK : Sync → String × String → Bool
+  | .mutex, (k, m) => (k == "lock" || k == "callerlock") && (m == "fast.mu" || m == "c.mu" || m == "enginesMu")
+  | .poolOwned, (k, _) => k == "deref"
+  | .callLocal, (k, _) => k == "deref"
+  | _, _ => true
+
+/-- **The `Sync` column agrees with evidence regenerated from the source.**  The extractor records for
+    every shared write how it is synchronised syntactically -- inside a `mu.Lock()`…`Unlock()` region (and of
+    which mutex), in a function only ever called inside such a region, through a pointer dereference, or
+    none of these -- on every run.  (1) The regenerated table lists the same writes in the same order as
+    the annotated one; (2) every annotation is backed by the regenerated evidence (`Sync.evidenceOK`);
+    (3) a write reachable at match time whose regenerated evidence is `plain` (no lock, no dereference)
+    is annotated `parseLocal` or `lazyInit` -- the two kinds whose safety rests on other arguments (the
+    replacement parser mutates only the tree it is building; `initCaches_callers`); (4) lock evidence
+    occurs only on entries annotated `mutex`.  Removing the `Lock()` around a cache or clock write, or
+    adding an unlocked second write to the same target, flips the evidence to `plain` and breaks this
+    obligation. -/
+theorem writeset_synchronised_regenerated :
+    Generated.sharedWriteSync.map (fun e => (e.1, e.2.1)) = expectedSharedWrites.map (fun e => (e.1, e.2.1)) ∧
+    (List.zip expectedSharedWrites Generated.sharedWriteSync).all
+      (fun p => Sync.evidenceOK p.1.2.2.2 (p.2.2.2.1, p.2.2.2.2)) = true ∧
+    (List.zip expectedSharedWrites Generated.sharedWriteSync).all
+      (fun p => !(p.1.2.2.1 && p.2.2.2.1 == "plain") || p.1.2.2.2 == .parseLocal || p.1.2.2.2 == .lazyInit) = true ∧
+    (List.zip expectedSharedWrites Generated.sharedWriteSync).all
+      (fun p => !(p.2.2.2.1 == "lock" || p.2.2.2.1 == "callerlock") || p.1.2.2.2 == .mutex) = true := by
+  decide
+
+/-- non-vacuity: the regenerated table does contain lock evidence for the three mutexes and the
+    caller-holds-lock case -/
+example :
+    ("fastclock.go:extendClock", "var regexp2.fast.start", "callerlock", "fast.mu") ∈ Generated.sharedWriteSync ∧
+    ("fastclock.go:runClock", "var regexp2.fast.running", "lock", "fast.mu") ∈ Generated.sharedWriteSync ∧
+    ("regexp.go:replacerDataCache.add", "regexp2.replacerDataCache.cache[]", "lock", "c.mu") ∈ Generated.sharedWriteSync ∧
+    ("regexp_codegen.go:RegisterEngine", "var regexp2.engines[]", "lock", "enginesMu") ∈ Generated.sharedWriteSync := by
+  decide
 
 /-- both constructors call `initCaches`, so the lazy call in `getRunner` never fires for a usable Regexp -/
 theorem initCaches_callers :
